@@ -130,9 +130,21 @@ def make_case(ctx: Ctx, backend: str, i: int) -> diff.Case:
             cols.append(f"{name}({', '.join(arg_expr(R, 'j', 2, name, npar) for _ in range(npar))})")
     if R.random() < 0.3:
         cols.append(f"({cols[0]} + {cols[-1]})")
+    scope_moving = R.random() < 0.35 and not method
+    if scope_moving:
+        # actual arguments whose translation opens loops / first-element blocks of their own (First, Count, Sum): the result
+        # variable must still be declared where the call's value is used
+        movers = ["j.tracks().First().pt()", "j.trkPts().First()", "j.tracks().Count()", "j.trkPts().Sum()", "j.tracks().Where(lambda t: t.pt() > 1.0).First().eta()"]
+        a = [R.choice(movers) if k == 0 or R.random() < 0.4 else arg_expr(R, "j", 0, None, 0) for k in range(npar)]
+        cols.append(f"{name}({', '.join(a)})")
+        if R.random() < 0.5:
+            cols.append(f"{name}({', '.join(reversed(a))})" if npar > 1 else f"({name}({a[0]}) * 2)")
     if R.random() < 0.2:
         cols.append("DeltaR(j.eta(), j.phi(), 0.5, 0.25)")
-    q = f"ds.SelectMany(lambda e: e.{C}('A')).Select(lambda j: ({', '.join(cols)}{',' if len(cols) == 1 else ''}))"
+    src = f"ds.SelectMany(lambda e: e.{C}('A'))"
+    if scope_moving:
+        src += ".Where(lambda j: j.tracks().Count() > 0 and j.trkPts().Count() > 0)"
+    q = f"{src}.Select(lambda j: ({', '.join(cols)}{',' if len(cols) == 1 else ''}))"
     extra: Dict[str, Any] = {}
     if method:
         # reference: method on the model object; bind through a global helper used by a rewritten query text for the reference only
@@ -193,8 +205,9 @@ def contract_monitor(args, phase, state):
             if result.as_cpp() in seen_results:
                 fails.append(f"result variable {result.as_cpp()} is not fresh")
             seen_results.add(result.as_cpp())
-            if not any(v is result for v in scope_block._variables):
-                fails.append("result variable is not declared in the scope enclosing the block")
+            # declared in (any) scope enclosing the block: argument translation may legitimately have moved the insertion point deeper
+            if not any(v is result for b in gc._scope_stack for v in b._variables):
+                fails.append("result variable is not declared in a scope enclosing the block")
             if any(v is result for v in blk._variables):
                 fails.append("result variable is declared inside the block")
             for inc in node.include_files:
